@@ -203,6 +203,7 @@ PROPS.update({
         "technique": "Lean 4 theorems over the forwarder table extracted from the source + double correspondence (direct and type-erased) against one model",
         "monitors": ["C01", "C02", "C03", "C07", "C11", "C13"],
         "corr": corr(["mixed", "handles", "timeouts", "burst"], nq=300, nt=3000, erase="both"),
+        "extra": ["stress"],
         "extract_items": ["forwarders", "conversions", "handle_algebra"],
         "assumptions": COMMON_ASSUME + ["dyn dispatch and Box are transparent (Rust semantics)"],
     },
